@@ -53,7 +53,9 @@ def run(c):
               "variables reused consistently and inconsistently) plus a hand-written catalogue (sequences in the middle, repeated "
               "variables across parameter and result lists, nested lists); every pattern is matched against every pool type (the "
               "source types, two near-miss mutants each, aliases, vendored copies, instantiations, same-named types of two packages) "
-              "under gotypesalias=0 and 1. A case is non-trivial when the oracle says it matches, or the pattern has a variable or "
+              "under gotypesalias=0 and 1; near-miss pairs for repeated variables in every binding position; an engine-level section "
+              "(Type.Is, Underlying().Is, list captures) and a group-sequence section (several files of several groups spelling the same "
+              "pattern strings under different Import() sets, Type.Is / Underlying().Is / SinkType.Is, one engine). A case is non-trivial when the oracle says it matches, or the pattern has a variable or "
               "$*_ and pattern and type have the same root constructor; distinct by (alias mode, pattern string, type expression)")
     c.trusted += [
         "harness/internal/gtypes serialiser; go/types accessors",
